@@ -144,13 +144,16 @@ def copy_case(draw, spec, cp):
             return dict(op='X', mode=draw(st.sampled_from(['a', 's'])), val=draw(valuation()), scripts={})
         return dict(op='N')
     for _ in range(draw(st.integers(1, cp.get('max_ops', 20)))):
-        kind = draw(st.sampled_from(['d', 'd', 'd', 'd', 'c', 'w', 'a', 'm', 'x']))
+        kind = draw(st.sampled_from(['d', 'd', 'd', 'd', 'd', 'd', 'c', 'w', 'a', 'm', 'x']))
         if kind == 'd':
             ops.append(drive())
         elif kind == 'c' and nobj < 4:
             ops.append(dict(op='C'))
             live.append(nobj)
             nobj += 1
+            if draw(st.booleans()):
+                cur = nobj - 1          # go on with the copy at once (its memory, not only its configuration, must be the source's)
+                ops.append(dict(op='W', obj=cur))
         elif kind == 'w' and len(live) > 1:
             cur = draw(st.sampled_from(live))
             ops.append(dict(op='W', obj=cur))
